@@ -39,6 +39,7 @@ static void c05_child(const void *job, size_t n) {
 		env_push_quiet(f, fl);
 	}
 	bidib_flush();
+	env_write_yields = 1;      /* a blocking write callback: the thread can be descheduled inside it */
 	vs_window(1);
 	int t1 = vs_spawn(t1_body, NULL), t2 = vs_spawn(t2_body, NULL), t3 = -1;
 	if (nthreads >= 3) t3 = vs_spawn(t3_body, NULL);
